@@ -120,17 +120,19 @@ theorem C16_combine (cs : List JobStatusCode) :
 /-- **a failing query never yields OK, and fabricates no state**: when `squeue`
 fails and `sacct` fails (or is not consulted) the code is not OK and every
 queried job stays `None`. -/
-theorem C16_slurm_failing_query (ids : List Str) (sq sa : Proc) (hq : sq.rc ≠ 0) (ha : sa.rc ≠ 0) :
-    ∃ c, slurmCheck ids sq sa = .ok (c, Status.init ids) ∧ c ≠ .OK := by
+theorem C16_slurm_failing_query (ids : List Str) (sq : Proc) (acct : List Str → Proc)
+    (hq : sq.rc ≠ 0) (ha : ∀ req, (acct req).rc ≠ 0) :
+    ∃ c, slurmCheck ids sq acct = .ok (c, Status.init ids) ∧ c ≠ .OK := by
   have h1 : (sq.rc == 0) = false := by simpa using hq
-  have h2 : (sa.rc == 0) = false := by simpa using ha
+  have h2 : ((acct (Status.init ids).missing).rc == 0) = false := by simpa using ha _
   simp only [slurmCheck, squeue, sacct, h1, h2, Bool.false_eq_true, ↓reduceIte]
   have hc1 : rcCode sq.rc ≠ .OK := by unfold rcCode; simp [h1]; split <;> simp
-  have hc2 : rcCode sa.rc ≠ .OK := by unfold rcCode; simp [h2]; split <;> simp
+  have hc2 : rcCode (acct (Status.init ids).missing).rc ≠ .OK := by
+    unfold rcCode; simp [h2]; split <;> simp
   split
   · refine ⟨_, rfl, ?_⟩
     intro h
-    have := (C16_combine [rcCode sq.rc, rcCode sa.rc]).1.mp h
+    have := (C16_combine [rcCode sq.rc, rcCode (acct (Status.init ids).missing).rc]).1.mp h
     simp only [List.mem_cons, List.not_mem_nil, or_false] at this
     rcases this with h' | h'
     · exact hc1 h'.symm
@@ -140,6 +142,74 @@ theorem C16_slurm_failing_query (ids : List Str) (sq sa : Proc) (hq : sq.rc ≠ 
     have := (C16_combine [rcCode sq.rc]).1.mp h
     simp only [List.mem_cons, List.not_mem_nil, or_false] at this
     exact hc1 this.symm
+
+/-- **What the queue command reports about a job is what Maestro reports**: the accounting
+command is asked only about the jobs the queue did not list, so - as long as its answer
+concerns, among Maestro's jobs, only the ones asked about (`Honest`, which the `--jobs=`
+option of `sacct` provides) - a state read from `squeue` is never replaced by an
+accounting record (which may lag behind: a requeued job that runs again, a job whose
+epilog is still running). -/
+theorem C16_squeue_answer_kept (ids : List Str) (sq : Proc) (acct : List Str → Proc)
+    (hon : Honest ids acct) (c1 : JobStatusCode) (st1 : Status)
+    (h1 : squeue (Status.init ids) sq = .ok (c1, st1))
+    (c : JobStatusCode) (st : Status) (h : slurmCheck ids sq acct = .ok (c, st))
+    (id : Str) (v : State) (hv : st1.get id = some v) : st.get id = some v := by
+  simp only [slurmCheck, h1] at h
+  split at h
+  · -- the accounting command was consulted
+    cases hs : sacct st1 (acct st1.missing) with
+    | error e => simp [hs] at h
+    | ok r =>
+      obtain ⟨c2, st2⟩ := r
+      simp only [hs, Except.ok.injEq, Prod.mk.injEq] at h
+      obtain ⟨_, rfl⟩ := h
+      unfold sacct at hs
+      split at hs
+      · cases hf : foldRows sacctAct ((splitOnChar '\n' (acct st1.missing).out).drop 2) st1 with
+        | error e => simp [hf] at hs
+        | ok st' =>
+          simp only [hf, Except.ok.injEq, Prod.mk.injEq] at hs
+          obtain ⟨_, rfl⟩ := hs
+          have ex := (foldActs_exact _ st1 st' hf id).2
+          -- the queue's `has` is that of the initial dict
+          have hhas : ∀ i, st1.has i = true → i ∈ ids := by
+            intro i hi
+            have hsq := h1
+            unfold squeue at hsq
+            split at hsq
+            · split at hsq
+              · rename_i s1 hf1
+                simp only [Except.ok.injEq, Prod.mk.injEq] at hsq
+                obtain ⟨_, rfl⟩ := hsq
+                have := (foldActs_exact _ (Status.init ids) _ hf1 i).1
+                rw [this] at hi
+                exact init_has ids i hi
+              · cases hsq
+            · simp only [Except.ok.injEq, Prod.mk.injEq] at hsq
+              obtain ⟨_, rfl⟩ := hsq
+              exact init_has ids i hi
+          have hnone : lastUpd id (((splitOnChar '\n' (acct st1.missing).out).drop 2).map sacctAct) = none := by
+            apply lastUpd_none
+            intro a ha s heq
+            simp only [List.mem_map] at ha
+            obtain ⟨row, hrow, hact⟩ := ha
+            have hid := sacctAct_id row id (.ok s) (hact.trans heq)
+            by_cases hin : id ∈ ids
+            · have := hon st1.missing row hrow (hid ▸ hin)
+              rw [hid] at this
+              have := missing_get st1 id this
+              rw [hv] at this; cases this
+            · -- not one of the queried ids: it has no entry, so no value
+              have : st1.get id = none := get_of_not_has st1 id (fun hh => hin (hhas id hh))
+              rw [hv] at this; cases this
+          rw [ex, hnone]
+          split <;> exact hv
+      · simp only [Except.ok.injEq, Prod.mk.injEq] at hs
+        obtain ⟨_, rfl⟩ := hs
+        exact hv
+  · simp only [Except.ok.injEq, Prod.mk.injEq] at h
+    obtain ⟨_, rfl⟩ := h
+    exact hv
 
 theorem C16_lsf_failing_query (ids : List Str) (p : Proc) (hq : p.rc ≠ 0) :
     ∃ c, lsfCheck ids p = .ok (c, Status.init ids) ∧ c ≠ .OK := by
@@ -175,8 +245,31 @@ array row, a blank line and a repeated row -/
 def demoOut : Str :=
   "             JOBID     NAME     USER ST\n               123     name     user  R\n              1234     name     user CD\n             123_4     name     user  F\n\n               123     name     user CG\n".toList
 
-example : (match slurmCheck ["123".toList, "12".toList] ⟨0, demoOut⟩ ⟨1, []⟩ with
+example : (match slurmCheck ["123".toList, "12".toList] ⟨0, demoOut⟩ (acctReply ["123".toList, "12".toList] ⟨1, []⟩) with
     | .ok r => r == (.OK, [("123".toList, some .FINISHING), ("12".toList, none)])
     | .error _ => false) = true := by decide +kernel
+
+/-- the scripted accounting command the correspondence runs both sides against keeps the
+`--jobs=` contract, so `C16_squeue_answer_kept` applies to every correspondence case -/
+theorem C16_accounting_contract (ids : List Str) (full : Proc) : Honest ids (acctReply ids full) :=
+  acctReply_honest ids full
+
+/-- non-vacuity: `squeue` lists job 123 as running, does not list job 12; the accounting
+record holds a stale COMPLETED row for 123 and a FAILED row for 12: 123 stays RUNNING
+(the stale row is not even returned, it was not asked about), 12 is read from `sacct` -/
+def demoAcct : Str :=
+  "JobID           JobName      State ExitCode \n------------ ---------- ---------- -------- \n123                name  COMPLETED      0:0 \n12                 name     FAILED      1:0 \n12.batch          batch     FAILED      1:0 ".toList
+
+def demoQueue : Str :=
+  "             JOBID     NAME     USER ST\n               123     name     user  R\n".toList
+
+example : (match slurmCheck ["123".toList, "12".toList] ⟨0, demoQueue⟩
+      (acctReply ["123".toList, "12".toList] ⟨0, demoAcct⟩) with
+    | .ok r => r == (.OK, [("123".toList, some .RUNNING), ("12".toList, some .FAILED)])
+    | .error _ => false) = true := by decide +kernel
+
+example : ((acctReply ["123".toList, "12".toList] ⟨0, demoAcct⟩ ["12".toList]).out ==
+    "JobID           JobName      State ExitCode \n------------ ---------- ---------- -------- \n12                 name     FAILED      1:0 \n12.batch          batch     FAILED      1:0 ".toList) = true := by
+  decide +kernel
 
 end MaestroVerif.C16
